@@ -23,7 +23,11 @@ pub fn serialize_usize<S: Serializer>(v: usize, serializer: S) -> (r: Result<S::
 { unimplemented!() }
 // `Deserialize::deserialize(deserializer)` at type usize: ANY value may come out of the byte stream
 #[verifier::external_body]
-pub fn deserialize_usize<'de, D: Deserializer<'de>>(deserializer: D) -> (r: Result<usize, D::Error>)
+pub fn deserialize_usize<'de, D: Deserializer<'de>>(deserializer: D, tls: &mut Tls) -> (r: Result<usize, D::Error>)
+    ensures final(tls).ser_channels@ == old(tls).ser_channels@, final(tls).ser_regions@ == old(tls).ser_regions@,
+            final(tls).de_channels@ == old(tls).de_channels@, final(tls).de_regions@ == old(tls).de_regions@, final(tls).sent == old(tls).sent,
+            r matches Ok(v) ==> final(tls).decoded == old(tls).decoded.push(v),      // ghost: every index read from the byte stream
+            r is Err ==> final(tls).decoded == old(tls).decoded,
 { unimplemented!() }
 // serde::de::Error::custom(msg)
 #[verifier::external_body]
@@ -53,6 +57,7 @@ pub struct Tls {
     pub de_channels: Vec<Option<OsOpaqueIpcChannel>>,       // OS_IPC_CHANNELS_FOR_DESERIALIZATION (None = already claimed)
     pub de_regions: Vec<Option<OsIpcSharedMemory>>,         // OS_IPC_SHARED_MEMORY_REGIONS_FOR_DESERIALIZATION
     pub ghost sent: Seq<SentMsg>,                            // every message handed to the OS layer, in order
+    pub ghost decoded: Seq<usize>,                           // every attachment index read from a byte stream, in order
 }
 
 // what a user Serialize impl may do while bincode walks the value (this is also exactly what a nested
@@ -77,6 +82,7 @@ pub open spec fn de_step(t0: Tls, t1: Tls) -> bool {
 // bincode::serialize_into(&mut bytes, &data): appends the encoding, calling T::serialize on the way
 #[verifier::external_body]
 pub fn bincode_serialize_into<T: Serialize>(bytes: &mut Vec<u8>, data: &T, tls: &mut Tls) -> (r: Result<(), bincode::Error>)
+    requires old(tls).ser_channels@.len() == 0 && old(tls).ser_regions@.len() == 0, //@@clause:ipc.IpcSender.send/requires.serialisation_starts_from_empty_attachment_lists
     ensures ser_step(*old(tls), *final(tls))      // on Ok AND on Err: a failing impl may already have pushed entries
 { unimplemented!() }
 // bincode::deserialize(&data[..])
